@@ -55,14 +55,46 @@ MANIFEST_ENTRY = {
 FRACS = [0.0, 0.001, 0.5, 0.999, 1.0]
 
 
-def make_spec(sizes, directions, rates, code='RotatedPlanar2DCode', decoder='MatchingDecoder'):
+def make_spec(sizes, directions, rates, code='RotatedPlanar2DCode', decoder='MatchingDecoder',
+              dparams=None):
     return {'ranges': {
         'label': 'c12',
         'code': {'name': code, 'parameters': [{'L_x': a, 'L_y': b} for a, b in sizes]},
         'error_model': {'name': 'PauliErrorModel',
                         'parameters': [{'r_x': r[0], 'r_y': r[1], 'r_z': r[2]} for r in directions]},
-        'decoder': {'name': decoder, 'parameters': {}},
+        'decoder': {'name': decoder, 'parameters': {} if dparams is None else dparams},
         'error_rate': list(rates)}}
+
+
+# decoder option sets; two entries of one list differ in exactly one option
+DECODER_VARIANTS = {
+    'MatchingDecoder': [{'error_type': None}, {'error_type': 'X'}, {'error_type': 'Z'}],
+    'BeliefPropagationOSDDecoder': [
+        {'max_bp_iter': 10, 'osd_order': 0, 'channel_update': False, 'bp_method': 'minimum_sum'},
+        {'max_bp_iter': 10, 'osd_order': 3, 'channel_update': False, 'bp_method': 'minimum_sum'},
+        {'max_bp_iter': 20, 'osd_order': 0, 'channel_update': False, 'bp_method': 'minimum_sum'},
+        {'max_bp_iter': 10, 'osd_order': 0, 'channel_update': True, 'bp_method': 'minimum_sum'},
+        {'max_bp_iter': 10, 'osd_order': 0, 'channel_update': False, 'bp_method': 'product_sum'}],
+    'MemoryBeliefPropagationDecoder': [
+        {'max_bp_iter': 3, 'alpha': 0.4, 'beta': 0},
+        {'max_bp_iter': 3, 'alpha': 0.4, 'beta': 0.5},
+        {'max_bp_iter': 3, 'alpha': 0.7, 'beta': 0},
+        {'max_bp_iter': 2, 'alpha': 0.4, 'beta': 0}],
+}
+
+
+def spec_sims(spec):
+    """Identities of the simulations a ranges spec requests (own expansion)."""
+    import itertools
+    out = []
+    blocks = spec['ranges'] if isinstance(spec['ranges'], list) else [spec['ranges']]
+    for b in blocks:
+        dp = b['decoder'].get('parameters') or {}
+        dps = dp if isinstance(dp, list) else [dp]
+        for c, e, d, r in itertools.product(b['code']['parameters'], b['error_model']['parameters'],
+                                            dps, b['error_rate']):
+            out.append(runner.canon([b['code']['name'], c, e, b['decoder']['name'], d, repr(float(r))]))
+    return out
 
 
 def norm(obj):
@@ -82,6 +114,8 @@ class Scenario:
         self.model = {}          # inputs_key -> record of the last completed save
         self.completed_saves = 0
         self.targets = {}        # inputs_key -> highest requested target
+        self.requested = set()   # identities of every simulation ever requested on this file
+        self.foreign_keys = set()
 
     def build(self, spec, save_frequency, seed):
         from panqec.simulation import read_input_dict
@@ -104,6 +138,8 @@ class Scenario:
         """Returns (outcome, n_events, batch). outcome: 'ok' | 'killed' |
         ('raised', repr)."""
         batch = self.build(spec, save_frequency, seed)
+        if not count_only:
+            self.requested |= set(spec_sims(spec))
         for sim in batch._simulations:
             k = inputs_key(sim._inputs)
             self.targets[k] = max(self.targets.get(k, 0), target)
@@ -147,6 +183,12 @@ def check_final(scen, batch, target, fail, foreign_marks=(), model=None):
         file_data = norm(load_json(scen.out))
     except Exception as exc:    # noqa
         fail('file_parses_after_completion', f'{type(exc).__name__}: {exc}')
+    if file_data is not None:
+        own = [r for r in file_data if inputs_key(r['inputs']) not in scen.foreign_keys]
+        if len(own) != len(scen.requested):
+            fail('file_has_one_record_per_simulation',
+                 f'{len(scen.requested)} distinct simulations were requested on this file, '
+                 f'it holds {len(own)} records for them')
     for si, sim in enumerate(batch._simulations):
         res = sim.results
         key = inputs_key(sim._inputs)
@@ -288,6 +330,7 @@ def history_case(case, fail):
         recs = []
         for sim in batch._simulations:
             rec = norm(sim.get_results_to_save())
+            scen.foreign_keys.add(inputs_key(rec['inputs']))
             k = rec['inputs']['code']['k']
             # marked: out of the code space, which the (complete) matching
             # decoder never produces in a genuine trial
@@ -306,6 +349,11 @@ def history_case(case, fail):
             if g[0] == 'size':
                 if {'L_x': g[1], 'L_y': g[2]} not in spec['ranges']['code']['parameters']:
                     spec['ranges']['code']['parameters'].append({'L_x': g[1], 'L_y': g[2]})
+            elif g[0] == 'dparam':
+                cur = spec['ranges']['decoder']['parameters']
+                cur = cur if isinstance(cur, list) else [cur]
+                if g[1] not in cur:
+                    spec['ranges']['decoder']['parameters'] = cur + [g[1]]
             else:
                 if g[1] not in spec['ranges']['error_rate']:
                     spec['ranges']['error_rate'].append(g[1])
@@ -371,7 +419,9 @@ def eval_case(case):
         f['sig']['fmt'] = case['fmt']
         f['detail'] = f"[{case['fmt']}] " + f['detail']
     return {'fails': fail.items, 'nontrivial': nt, 'nontrivial_keys': nt_keys,
-            'labels': [case['kind'], case['fmt']], 'evals': max(1, evals)}
+            'labels': [case['kind'], case['fmt']] + (
+                ['decoder:' + case['spec0']['ranges']['decoder']['name']]
+                if case['kind'] == 'history' else []), 'evals': max(1, evals)}
 
 
 def case_sig(case):
@@ -414,7 +464,18 @@ def histories(draw):
     # helper and a typed literal produce them
     rates = draw(st.lists(st.sampled_from([0.1, 0.2, 0.3, 0.1 + 0.2]), min_size=1, max_size=3,
                           unique=True))
-    spec0 = make_spec(sizes, [(1 / 3, 1 / 3, 1 / 3)], rates)
+    # the decoder and its options are part of a simulation's identity: one
+    # or two option sets that differ in exactly one option
+    dec_name, variants, dparams = 'MatchingDecoder', None, None
+    if draw(st.integers(0, 2)) == 0:
+        dec_name = draw(st.sampled_from(sorted(DECODER_VARIANTS)))
+        variants = DECODER_VARIANTS[dec_name]
+        k = draw(st.integers(1, len(variants) - 1))
+        dparams = draw(st.sampled_from([variants[0], [variants[0], variants[k]],
+                                        [variants[k], variants[0]], variants[k]]))
+        if dec_name != 'MatchingDecoder':
+            sizes, rates = sizes[:1], rates[:2]
+    spec0 = make_spec(sizes, [(1 / 3, 1 / 3, 1 / 3)], rates, decoder=dec_name, dparams=dparams)
     runs = []
     target = 0
     for _ in range(draw(st.integers(1, 5))):
@@ -429,13 +490,23 @@ def histories(draw):
         elif stop == 'ki_trial':
             run['stop'] = ['ki_trial', draw(st.integers(0, 3)), draw(st.integers(0, target))]
         if draw(st.integers(0, 5)) == 0:
-            run['grow'] = draw(st.sampled_from([['size', 3, 3], ['size', 2, 4], ['rate', 0.15],
-                                                ['rate', 0.25], ['rate', 0.1 + 0.2],
-                                                ['rate', 0.3]]))
+            grows = [['size', 3, 3], ['size', 2, 4], ['rate', 0.15], ['rate', 0.25],
+                     ['rate', 0.1 + 0.2], ['rate', 0.3]]
+            if variants is not None:
+                grows = grows[:2] + [['dparam', v] for v in variants[1:]] * 2
+            run['grow'] = draw(st.sampled_from(grows))
         runs.append(run)
     runs.append({'target': target + draw(st.integers(0, 2)), 'sf': draw(st.integers(1, 3))})
     case = {'kind': 'history', 'fmt': draw(st.sampled_from(['json', 'gz'])), 'spec0': spec0,
             'runs': runs, 'seed': draw(st.integers(0, 10**6))}
+    used_sets = [] if dparams is None else (dparams if isinstance(dparams, list) else [dparams])
+    used_sets = used_sets + [r_['grow'][1] for r_ in runs if r_.get('grow', [None])[0] == 'dparam']
+    if dec_name == 'MemoryBeliefPropagationDecoder' or \
+            any(v.get('error_type') in ('X', 'Z') for v in used_sets):
+        # (an incomplete decoder - MBP, one-sector matching: genuine trials may
+        # leave the code space, so the all-fail marking of foreign records
+        # would not be conclusive)
+        return case
     if draw(st.booleans()):
         # foreign records: inputs differ in exactly one respect
         how = draw(st.sampled_from(['size', 'direction', 'rate', 'rate_ulp', 'decoder']))
@@ -456,8 +527,16 @@ def histories(draw):
                     v = math.nextafter(v, 1.0)
                 far.append(v)
             f['ranges']['error_rate'] = [v for v in far if v not in rates]
-        else:
+        elif variants is None:
             f['ranges']['decoder'] = {'name': 'MatchingDecoder', 'parameters': {'error_type': 'X'}}
+        else:
+            # same decoder class, one option different from every requested set
+            used = dparams if isinstance(dparams, list) else [dparams]
+            used = used + [r_['grow'][1] for r_ in runs if r_.get('grow', [None])[0] == 'dparam']
+            other = [v for v in variants if v not in used]
+            if not other:
+                return case
+            f['ranges']['decoder'] = {'name': dec_name, 'parameters': other[0]}
         case['foreign'] = {'spec': f, 'n': runs[-1]['target'], 'how': how}
     return case
 
